@@ -183,7 +183,8 @@ class _THooks(Hooks):
                 return _Field("double-transposed", a.src, node)
             return Opaque("transpose_coordinates(?)", node)
         if fname in DOMAIN_FUNCS:
-            kw = {k.arg: k.value for k in node.keywords}
+            callee_ = eng.prog.funcs.get(f"{DOM}.{fname}")
+            kw = bind_args(callee_, node) if callee_ is not None else {k.arg: k.value for k in node.keywords}
             t = kw.get("transpose")
             if t is not None and isinstance(t, ast.Name) and t.id == self.flag:
                 f = _Field("by-callee", fname, node)
@@ -694,9 +695,11 @@ def _check_shapes(prog: Program, res: Result):
     ok = set(parts) == {"open_rectangle", "rectangle"}
     if ok:
         o, r = parts["open_rectangle"], parts["rectangle"]
-        oa = [eng.eval(a, st) for a in o.args]
-        ra = [eng.eval(a, st) for a in r.args]
-        kw = {k_.arg: eng.eval(k_.value, st) for k_ in r.keywords}
+        b_o = bind_args(prog.func(f"{COORD}.open_rectangle"), o)
+        b_r = bind_args(prog.func(f"{COORD}.rectangle"), r)
+        oa = [eng.eval(b_o[k_], st) for k_ in prog.func(f"{COORD}.open_rectangle").params()[:4] if k_ in b_o]
+        ra = [eng.eval(b_r[k_], st) for k_ in prog.func(f"{COORD}.rectangle").params()[:4] if k_ in b_r]
+        kw = {k_: eng.eval(v_, st) for k_, v_ in b_r.items()}
         bix = (A("n_x") - one) * A("b_x") / (A("n_ix") + one)
         biy = (A("n_y") - one) * A("b_y") / (A("n_it") + one)
         org = kw.get("origin")
